@@ -22,12 +22,16 @@ PROP = "C09"
 LEAN_MODULES = ["LunaVerif.Props.C09Spec", "LunaVerif.Lemmas.C09Stage", "LunaVerif.Lemmas.C09Block",
                 "LunaVerif.Lemmas.C09BlockReq", "LunaVerif.Lemmas.C09Dist", "LunaVerif.Lemmas.C09DistReq",
                 "LunaVerif.Lemmas.C09Rom", "LunaVerif.Lemmas.C09RomLookup", "LunaVerif.Lemmas.C09RomCorrect",
-                "LunaVerif.Props.C09", "LunaVerif.Lemmas.C09Mux", "LunaVerif.Props.C09Mux"]
+                "LunaVerif.Props.C09", "LunaVerif.Lemmas.C09Mux", "LunaVerif.Props.C09Mux",
+                "LunaVerif.Lemmas.C09Seq", "LunaVerif.Lemmas.C09BlockIdle", "LunaVerif.Lemmas.C09DistIdle",
+                "LunaVerif.Lemmas.C09MuxIdle", "LunaVerif.Props.C09Seq"]
 DRIVER = "Driver/C09.lean"
 REQUIRED_THEOREMS = ["datastage_exact", "dataStage_concat", "dataStage_packet_le", "rom_lookup_correct",
                      "block_packet_exact", "dist_packet_exact", "stall_without_data_when_absent_block",
                      "stall_without_data_when_absent_dist", "dist_runtime_packet_exact", "mux_packet_exact",
-                     "mux_stall_iff_absent"]
+                     "mux_stall_iff_absent", "block_returns_idle", "dist_returns_quiescent",
+                     "dist_runtime_returns_quiescent", "mux_returns_idle", "block_requests_exact",
+                     "dist_requests_exact", "mux_requests_exact"]
 RULE = ("cases = (handler class in {block, distributed, mux(block+distributed runtime)}, max packet size in "
         "{8,16,32,64}, random descriptor collection of 1..10 descriptors with lengths 1..300 weighted to "
         "packet-size multiples, types 0..15 and a few vendor types, sparse/consecutive indexes, string descriptors, "
@@ -46,15 +50,16 @@ ASSUMPTIONS = [
     "is used for them with lengths that are not multiples of 8 (such a generator cannot represent "
     "start_position == its length; the fixed-descriptor path was repaired for that case, see notes/C09.md)",
 ]
-PARTIAL = ("rom_lookup_correct (wellFormed coll -> romOk (Rom.layout coll) coll) is proved for arbitrary collections, "
-           "and block_packet_exact / stall_without_data_when_absent_block / dist_packet_exact are full per request; "
-           "mux_packet_exact composes the block handler (fixed descriptors) and the distributed handler (runtime "
-           "descriptors = USBDescriptorStreamGenerator over bytes, requests strictly inside the descriptor) through "
-           "the mux model from any stall-latch values.  "
-           "Not covered by theorems (co-simulation + monitor only): that the handlers are idle again when the "
-           "next IN arrives (each request is proved from an arbitrary idle state), runtime generators other than "
-           "the repo's USBDescriptorStreamGenerator, and the composition with the "
-           "real StandardRequestHandler/packet generator (mimicked by the testbench).")
+PARTIAL = ("All three items of the former PARTIAL are theorems now: rom_lookup_correct (wellFormed coll -> romOk "
+           "(Rom.layout coll) coll, arbitrary collections); mux_packet_exact (block handler for the fixed + distributed "
+           "handler for the runtime descriptors through the mux model, from any stall-latch values; STALL iff neither "
+           "owns the wValue); return-to-idle (block_returns_idle / dist_returns_quiescent / mux_returns_idle) and "
+           "sequences of requests (block/dist/mux_requests_exact).  Remaining, co-simulation + monitor only: runtime "
+           "generators other than the repo's USBDescriptorStreamGenerator over a byte string (and for those, requests "
+           "at start_position == length, excluded by ASSUMPTIONS); the composition with the real "
+           "StandardRequestHandler / USBDataPacketGenerator (the theorems take the handler-port view: start pulse, "
+           "value/length/start_position held, arbitrary tx.ready pattern; datastage_exact links packets to the host's "
+           "in-order read); theorems are about the Lean models, tied to the gateware by the co-simulation.")
 
 MPS = (8, 16, 32, 64)
 RESP_DEADLINE = 12          # a handler answers (packet begins or stall) within this many cycles of `start`
